@@ -181,6 +181,27 @@ func (e *Env) RImportRoles() {
 		}
 		return true
 	})
+	// whatever the shape of the naming code: some store into aliases[…] hands the alias of the
+	// import on unchanged (that is how `.` and `_` survive)
+	plain := false
+	ast.Inspect(fd.Body, func(nd ast.Node) bool {
+		as, ok := nd.(*ast.AssignStmt)
+		if !ok || len(as.Lhs) != len(as.Rhs) {
+			return true
+		}
+		for i, l := range as.Lhs {
+			if _, ok := isIndexOf(l, "aliases"); ok {
+				if id, ok := ast.Unparen(as.Rhs[i]).(*ast.Ident); ok {
+					if v, ok := info.Uses[id].(*types.Var); ok && !v.IsField() {
+						plain = true
+					}
+				}
+			}
+		}
+		return true
+	})
+	e.Run.Check("R-ROLE", "updateImports: the alias of a dot or blank import is handed on to its spec unchanged", pos(fd), plain,
+		"no store into aliases[…] takes the import's alias as it is: `.` and `_` are the only aliases that are not chosen by the name search, without such a store they are lost and the import becomes an ordinary one")
 	e.Run.Analysed("R-ROLE stores into the alias table", nAlias)
 	e.Run.Analysed("R-ROLE blank entries marked required", nReq)
 	e.Run.Analysed("R-ROLE nameless (dot / blank) name assignments", nNames)
